@@ -255,10 +255,33 @@ where
         let mut ctx = Context::new(ctx_pid);
         let mut accs: &[AccountInfo] = std::slice::from_ref(&info);
         let mut set = <Seeded<AccountInfo, S, P> as AccountSetDecode<'_, ()>>::decode_accounts(&mut accs, (), &mut ctx)?;
-        if mode == 0 {
-            set.validate_accounts(Seeds(s.clone()), &mut ctx)?;
+        let first = if mode == 0 {
+            set.validate_accounts(Seeds(s.clone()), &mut ctx)
         } else {
-            set.validate_accounts(SeedsWithBump { seeds: s.clone(), bump }, &mut ctx)?;
+            set.validate_accounts(SeedsWithBump { seeds: s.clone(), bump }, &mut ctx)
+        };
+        if let Err(e) = first {
+            // a refused validation leaves nothing behind: asking again gives the same answer
+            let mut o = vec![1, err_code(e) as i128];
+            let again = guarded(|| {
+                if mode == 0 {
+                    set.validate_accounts(Seeds(s.clone()), &mut ctx)
+                } else {
+                    set.validate_accounts(SeedsWithBump { seeds: s.clone(), bump }, &mut ctx)
+                }
+            });
+            match again {
+                Ok(Ok(())) => {
+                    o.push(0);
+                    o.push(set.access_seeds().bump as i128);
+                }
+                Ok(Err(e2)) => {
+                    o.push(1);
+                    o.push(err_code(e2) as i128);
+                }
+                Err(()) => o.push(2),
+            }
+            return Ok(o);
         }
         let mut o = vec![0];
         let rec = set.access_seeds().bump;
